@@ -354,8 +354,9 @@ UsesAreImportedAndInitialised(L) ==
 
 \* every binding an entry point exports is declared in its entry chunk or imported by it from
 \* the declaring chunk under an alias that names exactly this binding
+\* (a link result without the field eexports, as other state specifications may build it, satisfies this trivially)
 EntryExportsImported(L) ==
-  \A x \in L.eexports :
+  \A x \in (IF "eexports" \in DOMAIN L THEN L.eexports ELSE {}) :
      \A ce \in {c \in ChunkIds(L) : L.chunks[c].isEntry /\ L.chunks[c].entry = x.entry} :
         \A cd \in ChunksWith(L, x.file) :
            ce # cd =>
